@@ -20,6 +20,9 @@ const (
 	Diff  = "diff"  // connectivity diff of two directories
 	Op    = "op"    // history: mutate the live engine
 	Query = "query" // history: CheckIfAllowed on the live engine, on fresh engines too
+	// EvalAll loads a directory the way the eval command does (scan, parse, filter by the two pods,
+	// InsertObject in document order) and asks every query of the step on its own engine.
+	EvalAll = "evalall"
 )
 
 type Step struct {
@@ -41,6 +44,9 @@ type Step struct {
 	// op: insert | delete | deleteCopy | setResources | clear
 	Op   string `json:"op,omitempty"`
 	Objs []Obj  `json:"objs,omitempty"`
+
+	// evalall: each entry is src, dst, protocol, port ("ns/name" or an IP address)
+	Queries [][4]string `json:"queries,omitempty"`
 
 	// query
 	Src   string `json:"src,omitempty"`
@@ -96,6 +102,9 @@ type Event struct {
 	OpErr     string `json:"opErr,omitempty"`
 	CacheHits int    `json:"cacheHits,omitempty"`
 	CacheKeys int    `json:"cacheKeys,omitempty"`
+
+	QueryAt int      `json:"queryAt,omitempty"` // evalall: index of the query that panicked
+	Answers []string `json:"answers,omitempty"` // evalall: "true" | "false" | "error"
 
 	Draws uint64 `json:"draws"`
 	Panic *Panic `json:"panic,omitempty"`
